@@ -340,7 +340,6 @@ func ruleBufferReset(cx *Ctx) []Obligation {
 	if fn == nil {
 		return []Obligation{undecided(key, desc, "challenger.Chip.ObserveElement not found")}
 	}
-	fi := GetFnInfo(fn)
 	recv := ssa.Value(fn.Params[0])
 	// the output buffer is the field the squeeze pops from (x.F = x.F[:n] in GetChallenge); its name is not assumed
 	outField := "outputBuffer"
@@ -363,47 +362,73 @@ func ruleBufferReset(cx *Ctx) []Obligation {
 			}
 		}
 	}
-	for _, b := range fn.Blocks {
-		for _, ins := range b.Instrs {
-			st, ok := ins.(*ssa.Store)
-			if !ok {
-				continue
-			}
-			base, ok := fieldAddrOf(st.Addr, outField)
-			if !ok || base != recv {
-				continue
-			}
-			site := cx.P.Pos(st.Pos())
-			empty := false
-			switch v := st.Val.(type) {
-			case *ssa.Const:
-				empty = v.Value == nil
-			case *ssa.MakeSlice:
-				if n, ok := constInt(v.Len); ok && n == 0 {
-					empty = true
+	var scan func(f *ssa.Function, recv ssa.Value, depth int) []Obligation
+	scan = func(f *ssa.Function, recv ssa.Value, depth int) []Obligation {
+		fi := GetFnInfo(f)
+		for _, b := range f.Blocks {
+			for _, ins := range b.Instrs {
+				st, ok := ins.(*ssa.Store)
+				if !ok {
+					continue
 				}
-			case *ssa.Slice:
-				if hi, ok := v.High.(*ssa.Const); ok {
-					if n, ok := constInt(hi); ok && n == 0 {
-						empty = true // make([]T, 0) lowers to new [0]T sliced [:0]; s[:0] of anything is empty too
+				base, ok := fieldAddrOf(st.Addr, outField)
+				if !ok || base != recv {
+					continue
+				}
+				site := cx.P.Pos(st.Pos())
+				empty := false
+				switch v := st.Val.(type) {
+				case *ssa.Const:
+					empty = v.Value == nil
+				case *ssa.MakeSlice:
+					if n, ok := constInt(v.Len); ok && n == 0 {
+						empty = true
 					}
-				}
-				if a, ok := v.X.(*ssa.Alloc); ok {
-					if pt, ok := a.Type().Underlying().(*types.Pointer); ok {
-						if at, ok := pt.Elem().Underlying().(*types.Array); ok && at.Len() == 0 {
-							empty = true
+				case *ssa.Slice:
+					if hi, ok := v.High.(*ssa.Const); ok {
+						if n, ok := constInt(hi); ok && n == 0 {
+							empty = true // make([]T, 0) lowers to new [0]T sliced [:0]; s[:0] of anything is empty too
+						}
+					}
+					if a, ok := v.X.(*ssa.Alloc); ok {
+						if pt, ok := a.Type().Underlying().(*types.Pointer); ok {
+							if at, ok := pt.Elem().Underlying().(*types.Array); ok && at.Len() == 0 {
+								empty = true
+							}
 						}
 					}
 				}
+				if !empty {
+					return []Obligation{bad(key, desc, "the value stored to the output buffer ("+outField+") is not an empty slice: "+st.Val.String(), site)}
+				}
+				if !fi.MustBlock(b) {
+					return []Obligation{bad(key, desc, "the reset is conditional", site)}
+				}
+				return []Obligation{good(key, desc, site)}
 			}
-			if !empty {
-				return []Obligation{bad(key, desc, "the value stored to the output buffer ("+outField+") is not an empty slice: "+st.Val.String(), site)}
-			}
-			if !fi.MustBlock(b) {
-				return []Obligation{bad(key, desc, "the reset is conditional", site)}
-			}
-			return []Obligation{good(key, desc, site)}
 		}
+		// the reset may live in a helper method of the same chip that is called on every path (clearOutputBuffer)
+		if depth < 2 {
+			for _, b := range f.Blocks {
+				for _, ins := range b.Instrs {
+					c, ok := ins.(*ssa.Call)
+					if !ok || !fi.MustBlock(b) {
+						continue
+					}
+					g := c.Common().StaticCallee()
+					if g == nil || g.Blocks == nil || g.Pkg != f.Pkg || len(c.Common().Args) == 0 || c.Common().Args[0] != recv || len(g.Params) == 0 {
+						continue
+					}
+					if r := scan(g, g.Params[0], depth+1); r != nil {
+						return r
+					}
+				}
+			}
+		}
+		return nil
+	}
+	if r := scan(fn, recv, 0); r != nil {
+		return r
 	}
 	return []Obligation{bad(key, desc, "ObserveElement does not store to the output buffer ("+outField+")")}
 }
